@@ -166,7 +166,10 @@ fn run_sign_rt(plan: &Plan, lib: &dyn Lib, rec: &mut Rec) {
     let reqs = plan.get("reqs").max(1);
     for r in 0..reqs {
         rec.step += 1;
-        let msg = message(&mut x, plan.get("msg_class") as usize);
+        // the first request uses the run's length class; later ones walk through other classes (long after
+        // short and short after long on the same signer, the shape that exposes reused buffers / memoised state)
+        let class = if r == 0 { plan.get("msg_class") as usize } else { [5usize, 1, 11, 2, 8, 0, 16][(r as usize + plan.get("msg_class") as usize) % 7] };
+        let msg = message(&mut x, class);
         let mut answered = false;
         for attempt in 0..4 {
             let arrived = c.ship(client, signer, K_REQ, r as u64, vec![vec![scheme], msg.clone()]);
@@ -359,6 +362,10 @@ fn run_tamper(plan: &Plan, lib: &dyn Lib, rec: &mut Rec) {
         let part = (salt % 2) as usize;
         c.fault(K_RESP, 0, NetAction::BitFlip { part, bit: (salt >> 1) as usize });
     }
+    // the verifier sees the honest tuple first (as in a replay-with-modification attack), then the altered one,
+    // then the honest one again: a verdict must not be remembered under a key that leaves a component out
+    let first = c.at(2, || rec.call(lib, g, Op::Verify, &[&sig, &a.pk, &msg]));
+    rec.expect("C02", "honest-tuple-accepted", first.is_ok(), || format!("honest-before scheme={} g={} | honest tuple rejected: {:?}", scheme_name(scheme), g.name(), first));
     let arrived = c.ship(0, 2, K_RESP, 0, vec![t.pk.clone(), t.sig.clone(), t.msg.clone()]);
     for r in arrived {
         let tt = Tuple { pk: r.parts[0].clone(), sig: r.parts[1].clone(), msg: r.parts[2].clone() };
@@ -383,6 +390,8 @@ fn run_tamper(plan: &Plan, lib: &dyn Lib, rec: &mut Rec) {
             rec.expect("C02", "related-valid-tuple-accepted", out.is_ok(), || format!("{} scheme={} | valid tuple rejected: {:?}", label, scheme_name(scheme), out));
         }
     }
+    let again = c.at(2, || rec.call(lib, g, Op::Verify, &[&sig, &a.pk, &msg]));
+    rec.expect("C02", "honest-tuple-accepted", again.is_ok(), || format!("honest-after-{} scheme={} g={} | honest tuple rejected after an altered one was presented: {:?}", label, scheme_name(scheme), g.name(), again));
     // share verification entry points decide by the same equation
     if mode % 4 == 0 && scheme != 1 {
         let mut s32 = [0u8; 32];
@@ -413,6 +422,8 @@ fn run_bitflip_all(plan: &Plan, lib: &dyn Lib, rec: &mut Rec) {
     let Some(sig) = rec.call(lib, g, Op::Sign, &[&a.sk, &[scheme], &msg]).first().map(|v| v.to_vec()) else { return };
     let draft = Tags::draft(sig_grp(g));
     let base = [a.pk.clone(), sig.clone(), msg.clone()];
+    let first = rec.call(lib, g, Op::Verify, &[&sig, &a.pk, &msg]);
+    rec.expect("C02", "honest-tuple-accepted", first.is_ok(), || format!("honest-before scheme={} g={} | honest tuple rejected: {:?}", scheme_name(scheme), g.name(), first));
     let sp = Pt::from_bytes(&sig[1..]);
     let pkp = Pt::from_bytes(&a.pk);
     for part in 0..3 {
